@@ -93,7 +93,7 @@ def universe_blocks(tier, sd):
                  dx=list(range(-8, 9, 2)), dy=list(range(-6, 7, 2)), dz=[-4, 0, 2]),
             dict(proc="foot", api="reg", sa=[1], sra=[1], sb=small, srb=rot_all[sd % 2 :: 2],
                  dx=list(range(-16, 17, 2)), dy=list(range(-16, 17, 4)), dz=[0], poly=0),
-            dict(proc="isect", api="obj", sa=G.TILTABLE[:2], sqa=rot_all[4:], sra=[1, 2, 3, 4], sb=small, srb=[1, 2], **win),
+            dict(proc="isect", api="obj", sa=G.TILTABLE[:2], sqa=rot_all[4::2], sra=[1, 2, 3, 4], sb=small[:5], srb=[1, 2], **win),
             dict(proc="dist", api="obj", sa=G.TILTABLE[:2], sqa=rot_all[4::2], sra=[1, 2], sb=G.TILTABLE[:2], sqb=[1, 7, 13],
                  srb=[1, 2], dx=win["dx"], dy=win["dy"], dz=[0, 2]),
             dict(proc="foot", api="reg", sa=[1], sra=[1], sb=G.TILTABLE[:2], sqb=rot_all[4:], srb=[1, 2],
